@@ -1,24 +1,4 @@
-mod c04;
-mod c07;
-mod c08;
-mod c10;
-mod c14;
-mod c15;
-mod c16;
-mod c20;
-mod core;
-mod gchecks;
-mod gprog;
-mod grammar;
-mod lspchecks;
-mod lspdrv;
-mod reflex;
-mod refpos;
-mod sweep;
-mod swchecks;
-mod synchecks;
-mod texts;
-mod ws;
+use vcheck::{c04, c07, c08, c10, c14, c15, c16, c20, core, gchecks, gprog, grammar, lspchecks, lspdrv, reflex, refpos, sweep, swchecks, synchecks, texts, ws};
 
 use crate::core::{Check, Tier};
 
